@@ -379,11 +379,11 @@ impl<'a> ModelValidator<'a> {
                             });
                         }
                         
-                        // Variable count should be 2 or 3 (depending on whether constants are involved)
-                        if metadata.variables.len() < 2 || metadata.variables.len() > 3 {
+                        // Variable count is 1 to 3: the result is always a variable, each of x and y may be a constant
+                        if metadata.variables.is_empty() || metadata.variables.len() > 3 {
                             return Err(SolverError::InvalidConstraint {
                                 message: format!(
-                                    "{:?} constraint requires 2-3 variables, got {}",
+                                    "{:?} constraint requires 1-3 variables, got {}",
                                     metadata.constraint_type, metadata.variables.len()
                                 ),
                                 constraint_name: Some(format!("constraint_{}", constraint_id.0)),
@@ -392,29 +392,56 @@ impl<'a> ModelValidator<'a> {
                         }
                     },
                     ConstraintType::Division | ConstraintType::Modulo => {
-                        // Division and modulo need special validation for zero divisors
-                        if metadata.variables.len() != 3 {
+                        // Division and modulo need exactly 3 operands: dividend, divisor, result.
+                        // Like above, count OPERANDS: the dividend or the divisor may be a constant
+                        // (x % 2), which registers no variable.
+                        use crate::optimization::constraint_metadata::{ConstraintData, ConstraintValue, ViewInfo};
+                        let operands = if let ConstraintData::NAry { operands } = &metadata.data {
+                            Some(operands)
+                        } else {
+                            None
+                        };
+                        let operand_count = operands.map_or(metadata.variables.len(), |ops| ops.len());
+
+                        if operand_count != 3 {
                             return Err(SolverError::InvalidConstraint {
                                 message: format!(
-                                    "{:?} constraint requires exactly 3 variables (dividend, divisor, result), got {}",
-                                    metadata.constraint_type, metadata.variables.len()
+                                    "{:?} constraint requires exactly 3 operands (dividend, divisor, result), got {}",
+                                    metadata.constraint_type, operand_count
                                 ),
                                 constraint_name: Some(format!("constraint_{}", constraint_id.0)),
                                 variables: Some(metadata.variables.iter().map(|id| format!("var_{:?}", id)).collect()),
                             });
                         }
-                        
-                        // Check if divisor variable domain includes zero
-                        if metadata.variables.len() >= 2 {
-                            let divisor_var_id = metadata.variables[1];
-                            let divisor_var = &self.vars[divisor_var_id];
-                            if let Var::VarI(sparse_set) = divisor_var {
+
+                        // Special validation for zero divisors: the divisor is the SECOND OPERAND
+                        // (not the second registered variable, which is the result when the dividend is a constant)
+                        let zero_divisor = |who: String| SolverError::InvalidConstraint {
+                            message: "Division/Modulo constraint has divisor that can be zero".to_string(),
+                            constraint_name: Some(format!("constraint_{}", constraint_id.0)),
+                            variables: Some(vec![who]),
+                        };
+                        let divisor_var_id = match operands.and_then(|ops| ops.get(1)) {
+                            Some(ViewInfo::Variable { var_id }) => Some(*var_id),
+                            Some(ViewInfo::Transformed { base_var, .. }) => Some(*base_var),
+                            Some(ViewInfo::Constant { value }) => {
+                                let is_zero = match value {
+                                    ConstraintValue::Integer(i) => *i == 0,
+                                    ConstraintValue::Float(f) => *f == 0.0,
+                                };
+                                if is_zero {
+                                    return Err(zero_divisor("constant 0 (divisor)".to_string()));
+                                }
+                                None
+                            }
+                            Some(ViewInfo::Complex) => None,
+                            // no operand information: the second registered variable, as before
+                            None => metadata.variables.get(1).copied(),
+                        };
+                        if let Some(divisor_var_id) = divisor_var_id {
+                            if let Var::VarI(sparse_set) = &self.vars[divisor_var_id] {
                                 if sparse_set.contains(0) {
-                                    return Err(SolverError::InvalidConstraint {
-                                        message: "Division/Modulo constraint has divisor that can be zero".to_string(),
-                                        constraint_name: Some(format!("constraint_{}", constraint_id.0)),
-                                        variables: Some(vec![format!("var_{:?} (divisor)", divisor_var_id)]),
-                                    });
+                                    return Err(zero_divisor(format!("var_{:?} (divisor)", divisor_var_id)));
                                 }
                             }
                         }
